@@ -108,6 +108,32 @@ CHECKS = {
              'including commits, undos and reopen after the pack.',
         note='history level (bytes of the pack in C08/C09 machinery); pack times at second boundaries; blobs in C13',
         design='6/C07'),
+    'C11': dict(
+        technique='TLA+ spec ZConn (Connection bookkeeping: registered/added/creating/modified, cache membership, commit split into '
+                  'Begin/Store(o)/Stored/Vote/Finish with a failure alternative at each, abort, close, reopen, MVCC snapshot) '
+                  'model-checked by TLC; deviation constants decided by replaying TLC counterexamples; every transition of the dumped '
+                  'state graphs replayed on real connections',
+        text='TLC checks NewDisowned, AbortRestores, CleanAfterCommit, NoStateAcrossReuse, CloseOnlyOutsideTxn, CommittedTogether, '
+             'CommitStoresFinalStates on the design and exhibits F16/F23 with the constants set; tours covering the graphs (new objects, '
+             'committed objects + second writer, one object with close/reopen, one savepoint) are replayed on '
+             'PersistentMapping/PersistentList/VObj over Mapping/File(/Demo)Storage; failures are a real conflict, a harness resource '
+             'manager failing in each phase before/after the connection, an unpicklable value; after every action (4 points inside '
+             'commit) jar/oid/_p_changed/serial/state, the connection sets, what a load returns, a second connection view and the '
+             'last transaction records must equal the state TLC printed.',
+        note='bounded (2 objects, 3 actions per transaction, 1-2 commits; quick samples the graphs, thorough replays all transitions + '
+             '3-object simulation); F16, F23 known findings; C persistent/transaction trusted',
+        design='6/C11'),
+    'C12': dict(
+        technique='TLA+ spec ZConn (TmpStore position/index/creating/blob files, savepoint state tuples and ghost snapshots, Rollback(k) '
+                  'incl. AbortSavepoint, CommitSp, conflict at commit) model-checked by TLC; graphs replayed on real connections',
+        text='TLC checks RollbackRestores (ownership / value on access / root contents / blob bytes = snapshot at Savepoint(k), '
+             'repeated and nested), SavepointInvisible, NothingLeftBehind, CommitStoresFinalStates on the design and exhibits F2/F3 '
+             'with the constants set (F2 fixed a524578: red if the aliasing returns); tours over five graphs (two savepoints, repeated '
+             'rollback, reachability, conflict at commit, blobs) replayed with projection of TmpStore and of every live savepoint '
+             'state tuple and validity, store file closed / blob directory gone, a second connection polled after every action.',
+        note='bounded (<=3 savepoints, <=6 actions per transaction; quick samples, thorough exhaustive + simulation); F3 known finding; '
+             'state of un-added objects judged by C11',
+        design='6/C12'),
     'C13': dict(
         technique='TLA+ spec ZBlob (blob directory, dirty list, tmp/savepoint files, Connection/TmpStore bookkeeping, undo and both '
                   'blob packers on top of ZPackOps; deviation constants AbortNeedsVote/NonUndoPack/SpbPerSerial) model-checked by TLC; '
